@@ -48,6 +48,19 @@ def run(chk):
             probes[c['lay']].append(((c['x'], c['y'], c['z']), bytes(row['r'])))
     known = list(mc.KNOWN_PROTOCOL_VERSIONS)
     vec = []
+    shared_ctx = ConnectionContext(protocol_version=known[-1])
+    order = list(known)
+    rng.shuffle(order)
+    lay_shared = {}
+    for p in order:             # one long-lived context walked through the versions in random order
+        shared_ctx.protocol_version = p
+        ok = {}
+        for name in ('XYZ', 'XZY'):
+            try:
+                ok[name] = all(enc_pos(shared_ctx, *xyz) == b and dec_pos(shared_ctx, b)[0] == xyz for (xyz, b) in probes[name])
+            except Exception:   # noqa
+                ok[name] = False
+        lay_shared[p] = [n for n in ok if ok[n]]
     for p in known:
         ctx = ConnectionContext(protocol_version=p)
         lay = 'none'
@@ -63,6 +76,8 @@ def run(chk):
                     break
             if ok:
                 lay = name if lay == 'none' else 'both'
+        if lay in ('XYZ', 'XZY') and lay_shared.get(p) != [lay]:
+            lay = 'differs-on-reused-context'
         vec.append({'p': p, 'lay': lay})
         chk.case(('layout', p))
     tf = os.path.join(chk.work, 'layouts.json')
